@@ -86,6 +86,32 @@ def structural_check(module):
             for n, i in enumerate(b):
                 where[i] = (b, n)
         params = set(f.arguments)
+        # bookkeeping (C03 anchors: Instruction.add_use/del_use, Value.replace_by, Block.references): the operand
+        # slots an instruction really holds == its `uses` set; `used_by` of every value in the function == the
+        # instructions really holding it; `references` of every block == the terminators really targeting it
+        holders = {}
+        for b in blocks:
+            for i in b:
+                ops = [v for v in getattr(i, "_var_map", {}).values()]
+                ops += list(getattr(i, "arguments", []) or []) if type(i).__name__ in ("FunctionCall", "ProcedureCall") else []
+                ops += list(getattr(i, "inputs", {}).values()) if type(i).__name__ == "Phi" else []
+                ops += list(getattr(i, "input_values", []) or []) if type(i).__name__ == "InlineAsm" else []
+                ops = [v for v in ops if hasattr(v, "used_by")]
+                if {id(v) for v in ops} != {id(v) for v in i.uses}:
+                    problems.append(f"{f.name}/{b.name}: uses-set of {type(i).__name__} differs from its operand slots")
+                for v in ops:
+                    holders.setdefault(id(v), set()).add(id(i))
+                    if i not in v.used_by:
+                        problems.append(f"{f.name}/{b.name}: {type(i).__name__} is missing from used_by of {getattr(v, 'name', v)}")
+        for v in list(where) + list(params):
+            if hasattr(v, "used_by"):
+                for u in v.used_by:
+                    if id(u) not in holders.get(id(v), ()):
+                        problems.append(f"{f.name}: used_by of {getattr(v, 'name', v)} lists {type(u).__name__} which does not hold it")
+        for b in blocks:
+            really = {id(p.last_instruction) for p in blocks if list(p) and b in succ.get(p, [])}
+            if {id(r) for r in b.references} != really:
+                problems.append(f"{f.name}/{b.name}: Block.references differs from the terminators targeting it")
         for b in blocks:
             if b not in seen:
                 continue
